@@ -169,6 +169,52 @@ fn stress(installers: usize, emitters: usize, iters: usize, base: u64) -> String
 // properties reached from here (e.g. Key::get_hash under a registry lock) must pass through
 fn own_site(site: u32) -> bool { (201..=205).contains(&site) }
 
+// Process-level engine: the REAL global recorder (metrics::set_global_recorder / with_recorder), one
+// script per process.  `GLOBAL <op> <op> ...` with I<r> = install recorder r on the main thread,
+// J<r> = install on a fresh thread, E = emit on the main thread, F = emit on a fresh thread,
+// P<n> = n threads emit 2000 times each while another thread makes 5 further (losing) installs.
+// Output tokens: K<r> | X<r>[!x] (Ok / Err handing r back) | V<r> | N | P<number of emissions that did not reach the winner>.
+fn global_emit() -> String {
+    LAST.with(|l| l.set(0));
+    metrics::with_recorder(|rec| rec.describe_counter(KeyName::from_const_str("x"), None, SharedString::const_str("")));
+    let id = LAST.with(|l| l.get());
+    if id == 0 { "N".to_string() } else if id == u64::MAX { "V0!torn".to_string() } else { format!("V{}", id) }
+}
+fn global_install(r: u64) -> String {
+    match metrics::set_global_recorder(Dbl::new(r)) {
+        Ok(()) => format!("K{}", r),
+        Err(e) => { let d = e.into_inner(); let ok = d.id == r && drops(r) == 0 && d.fields.iter().all(|f| *f == r); format!("X{}{}", d.id, if ok { "" } else { "!x" }) }
+    }
+}
+fn global_script(ops: &str) -> String {
+    metrics::__verif::set_callback(None);
+    let mut out: Vec<String> = Vec::new();
+    let mut winner: u64 = 0;
+    for op in ops.split_whitespace() {
+        let (c, rest) = op.split_at(1);
+        let tok = match c {
+            "I" => global_install(rest.parse().unwrap()),
+            "J" => { let r: u64 = rest.parse().unwrap(); std::thread::spawn(move || global_install(r)).join().unwrap() }
+            "E" => global_emit(),
+            "F" => std::thread::spawn(global_emit).join().unwrap(),
+            "P" => {
+                let n: usize = rest.parse().unwrap();
+                let w = winner;
+                let mut hs = Vec::new();
+                for _ in 0..n { hs.push(std::thread::spawn(move || { let mut bad = 0u64; for _ in 0..2000 { if global_emit() != format!("V{}", w) { bad += 1; } } bad })); }
+                let inst = std::thread::spawn(|| { let mut bad = 0u64; for i in 0..5u64 { if !global_install(900 + i).starts_with(&format!("X{}", 900 + i)) { bad += 1; } std::thread::yield_now(); } bad });
+                let mut bad = inst.join().unwrap() * 1_000_000;
+                for h in hs { bad += h.join().unwrap(); }
+                format!("P{}", bad)
+            }
+            _ => panic!("bad global op"),
+        };
+        if let Some(r) = tok.strip_prefix('K') { winner = r.parse().unwrap(); }
+        out.push(tok);
+    }
+    out.join(" ")
+}
+
 fn main() {
     sched::set_site_filter(Some(own_site));
     let stdin = std::io::stdin();
@@ -178,6 +224,10 @@ fn main() {
     for line in stdin.lock().lines() {
         let line = line.unwrap();
         if line.trim().is_empty() { continue; }
+        if let Some(rest) = line.trim().strip_prefix("GLOBAL") {
+            writeln!(w, "{}", global_script(rest)).unwrap();
+            continue;
+        }
         if let Some(rest) = line.trim().strip_prefix("STRESS") {
             let v: Vec<usize> = rest.split_whitespace().map(|x| x.parse().unwrap()).collect();
             writeln!(w, "{}", stress(v[0], v[1], v[2], base)).unwrap();
